@@ -41,6 +41,13 @@ _REUSE = {"lin": None, "time": None}  # a quarter of the cases re-use the scale 
 KEY_FLOAT_STEP = "linear-nice-round-end-pushed-out-by-float-division"
 
 
+def nice_key(p):
+    for word, key in (("orientation", "orientation"), ("moved inward", "moved-inward"), ("moved out", "moved-out-2-steps"), ("not a multiple", "not-round"), ("is not on a", "not-aligned")):
+        if word in p:
+            return key
+    return "other"
+
+
 def float_extra_step(a, b, a2, b2, ticks, probs):
     """Mechanism classifier of the known finding: the only complaint is an outward move of
     (float-)exactly two steps of an end that already was a multiple of the step - the quotient
@@ -77,7 +84,7 @@ def lin_case(ctx, S, a, b, m, tag):
         return
     probs, full = T.judge_linear_nice(a, b, a2, b2, ticks)
     if probs:
-        key = "linear:" + probs[0].split(":")[0][:30]
+        key = "linear:" + nice_key(probs[0])
         if float_extra_step(a, b, a2, b2, ticks, probs):
             key = KEY_FLOAT_STEP
         ctx.judge("linear", VIOLATED, case, finding={"problems": probs, "niced": [a2, b2], "ticks": ticks[:6]}, key=key)
@@ -107,7 +114,7 @@ def time_case(ctx, S, a, b, m, tag):
     probs, full = T.judge_time_nice(a, b, a2, b2, before)
     if probs:
         ctx.judge(stratum, VIOLATED, case, finding={"problems": probs, "niced": [a2, b2], "ticks_before": before[:5], "n_ticks": len(before)},
-                  key="time:" + probs[0].split(":")[0][:30])
+                  key="time:" + nice_key(probs[0]))
         return
     if not full:
         ctx.path("time.partial-judgement")
